@@ -18,16 +18,6 @@ impl ClientErrorStatusCode {
     #[verifier::external_body]
     pub fn canonical_reason(&self) -> (r: Option<&'static str>) ensures (r is Some) == has_canonical_reason(self.0.code) { unimplemented!() }
 }
-impl Clone for ErrorStatusCode {
-    #[verifier::external_body]
-    fn clone(&self) -> (r: Self) ensures r == *self { unimplemented!() }
-}
-impl Copy for ErrorStatusCode {}
-impl Clone for ClientErrorStatusCode {
-    #[verifier::external_body]
-    fn clone(&self) -> (r: Self) ensures r == *self { unimplemented!() }
-}
-impl Copy for ClientErrorStatusCode {}
 #[verifier::external_body]
 pub fn to_string_pretty(b: &HttpErrorResponseBody) -> (r: Result<String, SerdeJsonError>)
     ensures r is Ok, r->Ok_0@ == json_pretty(b.request_id@, optv(b.error_code), b.message@) { unimplemented!() }
